@@ -14,9 +14,74 @@ EXPLANATION = (
     "assumed). Paper step on top (not executed): the client's trusted root changes only by an accepted verify_root(T, U); "
     "by S1 each accepted step raises the version by exactly one and is signed by the threshold in force in T; by S2-S3 the "
     "verdict on an offer depends on (T, U) only, so replayed, rolled-back, skipping or self-appointed offers are judged as "
-    "if offered first and rejected by S1; induction on the number of accepted offers."
+    "if offered first and rejected by S1; induction on the number of accepted offers. S5: the client side lives outside the "
+    "library, except where code of the repository itself loops around verify_root (a chain walker): such a loop must pair "
+    "every offer with the root accepted just before it (none on the reference tree; zip(x, x) pairings are reported, an "
+    "unrecognised pairing is 'no verdict')."
 )
-RULE_TEXT = "obligations are those of C03 (prefix S1), the purity rules of C12 (prefix S2S3) and the persistence rules C08-R1/R2 (prefix S4), all recomputed on the current tree"
+RULE_TEXT = "obligations are those of C03 (prefix S1), the purity rules of C12 (prefix S2S3) and the persistence rules C08-R1/R2 (prefix S4), all recomputed on the current tree; S5 inspects every loop of the repository from which verify_root is reachable"
+
+
+ONE_SHOT_CALLS = ("builtin:iter", "builtin:map", "builtin:filter", "builtin:zip", "builtin:enumerate", "builtin:reversed")
+
+
+def _one_shot(t):
+    return isinstance(t, tuple) and ((len(t) == 4 and t[0] == "call" and t[1] in ONE_SHOT_CALLS) or (len(t) == 3 and t[0] == "gen") or (len(t) == 5 and t[0] == "comp" and t[1] == "gen"))
+
+
+def chain_walkers(ctx):
+    """S5 - code of the repository that itself carries a trusted root over several offers: a loop
+    around verify_root (directly or through a helper).  Such a walker is part of the protocol's
+    client side and must verify every link: consecutive, overlapping pairs."""
+    from sa.callgraph import CallGraph
+    from sa.effects import all_events
+    from sa.terms import C, is_call, is_lit, show
+
+    from sa import AnalysisError
+
+    eng, prog = ctx.eng, ctx.prog
+    cg = CallGraph(prog)
+    target = "authentication.verify_root"
+    reach = {q for q in prog.funcs if q != target and target in cg.cone([q])}
+    reach_callees = {"repo:" + q for q in reach} | {"repo:" + target}
+
+    def reaches(events):
+        for ev in all_events(events):
+            if ev[0] == "call" and isinstance(ev[2], str) and ev[2].split("[")[0].split("<")[0] in reach_callees:
+                return True
+        return False
+
+    seen = set()
+    for q in sorted(reach):
+        fi = prog.funcs[q]
+        if fi.parent is not None:
+            continue
+        sm = eng.walk(q)
+        for p in sm.paths:
+            for ev in all_events(p.events):
+                if ev[0] != "loop" or (ev[1], "loop") in seen:
+                    continue
+                if not any(reaches(bp[2]) for bp in ev[4]):
+                    continue
+                seen.add((ev[1], "loop"))
+                ctx.count("S5.walkers")
+                base = ev[2]
+                if is_call(base, "builtin:zip") and len(base[2]) == 2 and not base[3]:
+                    a, b = base[2]
+                    if a == b:
+                        ctx.ob("S5", "walker|%s|pairs" % q, ev[1].loc(), "%s walks a chain of roots over zip(x, x) with x = %s: the links are not consecutive (%s), so an offer is accepted without having been verified against the root accepted just before it" % (q, show(a)[:60], "non-overlapping pairs: every second link is skipped" if _one_shot(a) else "each document paired with itself"), False)
+                        continue
+                    if isinstance(b, tuple) and b and b[0] == "sub" and b[1] == a and not _one_shot(a) and is_lit(b[2], "slice") and tuple(b[2][2]) == (C(1), C(None), C(None)):
+                        ctx.ob("S5", "walker|%s|pairs" % q, ev[1].loc(), "%s walks a chain of roots over zip(x, x[1:]): consecutive, overlapping pairs" % q, True)
+                        continue
+                if is_call(base, ("ext:itertools.pairwise",)) and len(base[2]) == 1:
+                    ctx.ob("S5", "walker|%s|pairs" % q, ev[1].loc(), "%s walks a chain of roots over itertools.pairwise: consecutive, overlapping pairs" % q, True)
+                    continue
+                raise AnalysisError("C04: %s at %s loops around verify_root over %s - a chain walker whose pairing of trusted and offered roots the analysis does not recognise (no verdict)" % (q, ev[1].loc(), show(base)[:80]))
+            for ev in all_events(p.events):
+                if ev[0] == "while" and (ev[1], "while") not in seen and any(reaches(bp[2]) for bp in ev[2]):
+                    raise AnalysisError("C04: %s at %s has a while loop around verify_root - a chain walker the analysis does not follow (no verdict)" % (q, ev[1].loc()))
+    ctx.count("S5.functions_reaching_verify_root", len(reach))
 
 
 def run(ctx):
@@ -25,3 +90,4 @@ def run(ctx):
     c12.run(ctx.sub("S2S3"))
     c08.writer_model(ctx.sub("S4"), "R1")
     c08.loader_model(ctx.sub("S4"), "R2")
+    chain_walkers(ctx)
